@@ -34,6 +34,17 @@ META = {
 
 MAX = 128 * 1024 - 1
 FIRST_STREAM = 2          # stream ids handed out after the two handshake requests
+# connection setups that end in v5 framing: the requests the node must see, in order, what it answers, the
+# SASL tokens a PlainTextAuthenticator('u', 'p') sends, and the first stream id handed out afterwards
+HANDSHAKES = {
+    'ready': {'authenticator': None, 'requests': ('OPTIONS', 'STARTUP'), 'tokens': (), 'first': 2},
+    'auth': {'authenticator': 'org.apache.cassandra.auth.PasswordAuthenticator',
+             'requests': ('OPTIONS', 'STARTUP', 'AUTH_RESPONSE'), 'tokens': (b'\x00u\x00p',), 'first': 3},
+    # DSE: mechanism name first, the node challenges, then the credentials
+    'auth-challenge': {'authenticator': 'com.datastax.bdp.cassandra.auth.DseAuthenticator',
+                       'requests': ('OPTIONS', 'STARTUP', 'AUTH_RESPONSE', 'AUTH_RESPONSE'),
+                       'tokens': (b'PLAIN', b'\x00u\x00p'), 'first': 4},
+}
 
 
 def noise(n, salt=b'x'):
@@ -53,16 +64,17 @@ def frame_of(stream, body, flags=0):
 
 class Stream(object):
     """bytes of a segment stream + what must come out of it"""
-    def __init__(self, name, lz4):
-        self.name, self.lz4 = name, lz4
+    def __init__(self, name, lz4, first=FIRST_STREAM):
+        self.name, self.lz4, self.first = name, lz4, first
         self.data = b''
         self.frames = []        # (stream id, flags, body)
         self.ready_at = []      # per frame: offset at which its last segment is complete
         self.segs = []          # (start, header_end, header_crc_end, payload_end, end, form)
+        self.nframes = []       # per segment: number of frames that END in it (>= 2: coalesced responses)
         self._n = 0
 
     def next_sid(self):
-        s = FIRST_STREAM + self._n
+        s = self.first + self._n
         self._n += 1
         return s
 
@@ -95,6 +107,7 @@ class Stream(object):
             payload += frame_of(sid, body, flags)
             new.append((sid, flags, body))
         end = self.add_segment(payload, True, form)
+        self.nframes.append(len(new))
         for f in new:
             self.frames.append(f)
             self.ready_at.append(end)
@@ -107,6 +120,8 @@ class Stream(object):
         end = None
         for i in range(0, len(fb), piece):
             end = self.add_segment(fb[i:i + piece], False, form, strict=False)
+            self.nframes.append(0)
+        self.nframes[-1] = 1
         self.frames.append((sid, 0, body))
         self.ready_at.append(end)
         return self
@@ -128,7 +143,9 @@ class Stream(object):
         """input class of a splitting, by the first read boundary (in order) that is special:
         'short-header-read' = a read ends with fewer bytes of a segment buffered than its header + header CRC;
         'uncompressed-form-tail' = a read ends 1-2 bytes before the end of a segment written in the
-        "left uncompressed inside an lz4 connection" form; 'other' = neither."""
+        "left uncompressed inside an lz4 connection" form; otherwise 'coalesced-segment-then-more' = the
+        stream has a segment carrying two or more frames that is followed by a further segment; 'other' = none
+        of these."""
         for fed in read_ends:
             for s in self.segs:
                 if s[0] < fed < s[4]:
@@ -136,6 +153,8 @@ class Stream(object):
                         return 'short-header-read'
                     if s[5] == 'U' and s[4] - fed <= 2:
                         return 'uncompressed-form-tail'
+        if any(n >= 2 for n in self.nframes[:-1]):
+            return 'coalesced-segment-then-more'
         return 'other'
 
     def seg_index_of_byte(self, i):
@@ -146,32 +165,50 @@ class Stream(object):
 
 
 ZB = b'\x00' * 40        # compresses
+
+
+def _pf(lz):
+    return 'U' if lz else 'P'
+
+
 SMALL = {
-    # name: (lz4?, builder)
-    'one-empty-frame': lambda lz: Stream('one-empty-frame', lz).sc([b''], 'U' if lz else 'P'),
-    'two-segments': lambda lz: Stream('two-segments', lz).sc([b'\x41'], 'U' if lz else 'P').sc([b'\x51\x52\x53\x54\x55\x56\x57'], 'U' if lz else 'P'),
-    'two-frames-one-segment': lambda lz: Stream('two-frames-one-segment', lz).sc([b'\x41', b''], 'U' if lz else 'P'),
-    'frame-over-two-segments': lambda lz: Stream('frame-over-two-segments', lz).multi(b'\x61\x62\x63\x64\x65', 8, 'U' if lz else 'P'),
-    'multi-then-single': lambda lz: Stream('multi-then-single', lz).multi(b'\x61\x62\x63', 7, 'U' if lz else 'P').sc([b'\x71'], 'U' if lz else 'P'),
+    # name: builder(lz4?, first stream id)
+    'one-empty-frame': lambda lz, f: Stream('one-empty-frame', lz, f).sc([b''], _pf(lz)),
+    'two-segments': lambda lz, f: Stream('two-segments', lz, f).sc([b'\x41'], _pf(lz)).sc([b'\x51\x52\x53\x54\x55\x56\x57'], _pf(lz)),
+    'two-frames-one-segment': lambda lz, f: Stream('two-frames-one-segment', lz, f).sc([b'\x41', b''], _pf(lz)),
+    'frame-over-two-segments': lambda lz, f: Stream('frame-over-two-segments', lz, f).multi(b'\x61\x62\x63\x64\x65', 8, _pf(lz)),
+    'multi-then-single': lambda lz, f: Stream('multi-then-single', lz, f).multi(b'\x61\x62\x63', 7, _pf(lz)).sc([b'\x71'], _pf(lz)),
+    # a node coalesces small responses into one self-contained segment; more segments follow
+    'two-frames-then-segment': lambda lz, f: Stream('two-frames-then-segment', lz, f).sc([b'\x41', b'\x42\x43'], _pf(lz)).sc([b'\x51'], _pf(lz)),
+    'three-frames-then-two-frames': lambda lz, f: Stream('three-frames-then-two-frames', lz, f).sc([b'\x41', b'', b'\x43\x44'], _pf(lz)).sc([b'\x51\x52\x53', b'\x54'], _pf(lz)),
+    'two-frames-then-multi': lambda lz, f: Stream('two-frames-then-multi', lz, f).sc([b'', b'\x42'], _pf(lz)).multi(b'\x61\x62\x63', 7, _pf(lz)),
+    'multi-then-two-frames-then-single': lambda lz, f: Stream('multi-then-two-frames-then-single', lz, f).multi(b'\x61', 6, _pf(lz)).sc([b'\x41', b''], _pf(lz)).sc([b'\x71'], _pf(lz)),
 }
 SMALL_LZ4_ONLY = {
-    'compressed': lambda lz: Stream('compressed', True).sc([ZB], 'C'),
-    'uncompressed-then-compressed': lambda lz: Stream('uncompressed-then-compressed', True).sc([b'\x41'], 'U').sc([ZB], 'C'),
-    'compressed-then-uncompressed': lambda lz: Stream('compressed-then-uncompressed', True).sc([ZB], 'C').sc([b'\x41\x42'], 'U'),
-    'compressed-two-frames': lambda lz: Stream('compressed-two-frames', True).sc([ZB, ZB + b'\x01'], 'C'),
+    'compressed': lambda lz, f: Stream('compressed', True, f).sc([ZB], 'C'),
+    'uncompressed-then-compressed': lambda lz, f: Stream('uncompressed-then-compressed', True, f).sc([b'\x41'], 'U').sc([ZB], 'C'),
+    'compressed-then-uncompressed': lambda lz, f: Stream('compressed-then-uncompressed', True, f).sc([ZB], 'C').sc([b'\x41\x42'], 'U'),
+    'compressed-two-frames': lambda lz, f: Stream('compressed-two-frames', True, f).sc([ZB, ZB + b'\x01'], 'C'),
+    'compressed-two-frames-then-uncompressed': lambda lz, f: Stream('compressed-two-frames-then-uncompressed', True, f).sc([ZB, ZB + b'\x01'], 'C').sc([b'\x41'], 'U'),
+    'uncompressed-two-frames-then-compressed': lambda lz, f: Stream('uncompressed-two-frames-then-compressed', True, f).sc([b'\x41', b''], 'U').sc([ZB], 'C'),
 }
 FLIP_STREAMS = ((False, 'two-segments'), (False, 'frame-over-two-segments'), (True, 'uncompressed-then-compressed'),
-                (True, 'compressed-then-uncompressed'))
+                (True, 'compressed-then-uncompressed'), (False, 'two-frames-then-segment'))
 BIG_SIZES = {'MAX-1': MAX - 1, 'MAX': MAX, 'MAX+1': MAX + 1, '2MAX': 2 * MAX, '2MAX+5': 2 * MAX + 5}
 
 
-def big_stream(name, lz4, form):
-    """name = size key, optionally '+small' / 'small+'"""
-    core = name.replace('small+', '').replace('+small', '')
-    size = BIG_SIZES[core]
-    st = Stream('%s/%s' % (name, form), lz4)
+def big_core(name):
+    return name.replace('small+', '').replace('+small', '').replace('pair+', '')
+
+
+def big_stream(name, lz4, form, first=FIRST_STREAM):
+    """name = size key, optionally '+small' / 'small+' / 'pair+' (pair = two frames coalesced in one segment)"""
+    size = BIG_SIZES[big_core(name)]
+    st = Stream('%s/%s' % (name, form), lz4, first)
     if name.startswith('small+'):
         st.sc([b'\x41'], 'U' if lz4 else 'P')
+    if name.startswith('pair+'):
+        st.sc([b'\x41', b'\x42\x43'], 'U' if lz4 else 'P')
     body_len = size - 9
     body = noise(body_len) if form in ('P', 'U') else (b'0123456789abcdef' * (body_len // 16 + 1))[:body_len]
     if size <= MAX:
@@ -183,45 +220,189 @@ def big_stream(name, lz4, form):
     return st
 
 
-def get_stream(kind, name, lz4, form=None):
+def get_stream(kind, name, lz4, form=None, hs='ready'):
+    first = HANDSHAKES[hs]['first']
     if kind == 'small':
         b = SMALL.get(name) or SMALL_LZ4_ONLY[name]
-        return b(lz4)
-    return big_stream(name, lz4, form)
+        return b(lz4, first)
+    return big_stream(name, lz4, form, first)
 
 
 # ------------------------------------------------------------------ one execution
-def connect(lz4):
-    from vt.world.vworld import World
-    srv = connlib.make_seg_server(compression=['lz4'] if lz4 else [])
+def open_connection(lz4, hs='ready', split=None):
+    """A v5 VConnection taken through handshake `hs` one server answer at a time; split = {step: cuts} feeds
+    the answer to request number `step` in pieces (default: one read per answer).
+    -> (world, server, connection, problem); problem = None or (oracle clause, step, text).  The judgement is made
+    on the wire only: the independent reader of the node must accept everything the driver pushes once framing is
+    on, every intact answer must be taken without failing the connection, and must have its effect (the next
+    request arrives / the connection reports itself connected) once its last byte has arrived."""
+    from vt.world.vworld import World, VConnection
+    from vt.world import wire
+    from cassandra.auth import PlainTextAuthenticator
+    from cassandra.connection import CrcMismatchException
+    H = HANDSHAKES[hs]
+    split = split or {}
+    srv = connlib.make_seg_server(compression=['lz4'] if lz4 else [], authenticator=H['authenticator'])
+    if hs == 'auth-challenge':
+        challenged = []
+
+        def on_request(server, conn, stream, req):
+            if req['op'] == 'AUTH_RESPONSE' and not challenged:
+                challenged.append(stream)
+                return wire.OP_AUTH_CHALLENGE, wire.w_bytes(b'PLAIN-START')
+            return None
+        srv.on_request = on_request
+    srv.hold = lambda c, r: True
     w = World(srv)
     w.__enter__()
     try:
-        conn = connlib.bare_connection(w, 5, compression=bool(lz4))
-        if not conn._is_checksumming_enabled or bool(conn.compressor) != bool(lz4):
-            raise HarnessError('v5 setup: checksumming %r compressor %r' % (conn._is_checksumming_enabled, conn.compressor))
-        return w, srv, conn
+        conn = VConnection(srv.hosts[0].address, protocol_version=5, compression=bool(lz4),
+                           authenticator=PlainTextAuthenticator('u', 'p') if H['authenticator'] else None)
+        st = conn.server_state
+        problem = None
+        tokens = []
+
+        def state():
+            return 'defunct=%r closed=%r last_error=%r' % (conn.is_defunct, conn.is_closed, conn.last_error)
+
+        for step, op in enumerate(H['requests']):
+            got = [p.req['op'] for p in srv.pending]
+            if got != [op]:
+                if step < 2:       # OPTIONS / STARTUP travel before any framing: not this property's business
+                    raise HarnessError('v5 setup %s: node holds %r at step %d, expected %s; %s' % (hs, got, step, op, state()))
+                if st.get('unreadable'):
+                    problem = ('unreadable-by-server', step, 'the node cannot read what the driver sent in answer to %s: %s' % (
+                        H['requests'][step - 1] + ' response', st['unreadable'][0]))
+                elif conn.is_defunct or conn.is_closed:
+                    crc = isinstance(conn.last_error, CrcMismatchException)
+                    problem = ('clean', step, '%s on the intact answer to request %d (%s): %s' % (
+                        'spurious checksum error' if crc else 'connection failed', step - 1, H['requests'][step - 1], state()))
+                else:
+                    problem = ('lost', step, 'the complete answer to request %d (%s) has arrived but the node sees %r instead of %s; %s' % (
+                        step - 1, H['requests'][step - 1], got, op, state()))
+                break
+            p = srv.pending[0]
+            if op == 'AUTH_RESPONSE':
+                tokens.append(p.req.get('token'))
+                if p.req.get('trailing') or tokens[-1] != H['tokens'][len(tokens) - 1]:
+                    problem = ('auth-token-altered', step, 'AUTH_RESPONSE %d read by the node carries %r (+%r trailing bytes), the authenticator gave %r' % (
+                        len(tokens), tokens[-1], p.req.get('trailing'), H['tokens'][len(tokens) - 1]))
+                    break
+            srv.answer(p)
+            if step == 1 and (not st.get('framed') or bool(st.get('lz4')) != bool(lz4)):
+                raise HarnessError('v5 setup %s: STARTUP options %r, wanted lz4=%r' % (hs, p.req.get('options'), lz4))
+            if len(srv.outbox) != 1:
+                raise HarnessError('v5 setup %s: %d answers queued at step %d' % (hs, len(srv.outbox), step))
+            _, data = srv.outbox.popleft()
+            st.setdefault('answer_lens', {})[step] = len(data)
+            fed = 0
+            for ch in connlib.chunks(data, tuple(split.get(step, ()))):
+                early = len(srv.pending) or conn.connected_event.is_set()
+                if fed and early and not (conn.is_defunct or conn.is_closed):
+                    problem = ('early', step + 1, 'the answer to request %d (%s) had its effect after %d of its %d bytes' % (
+                        step, op, fed, len(data)))
+                    break
+                try:
+                    connlib.guarded_feed(conn, ch)
+                except connlib.Livelock as e:
+                    problem = ('livelock', step + 1, 'the read of bytes %d..%d of the %d-byte answer to request %d (%s) never returned: %s' % (
+                        fed, fed + len(ch), len(data), step, op, e))
+                    break
+                fed += len(ch)
+            if problem:
+                break
+        if problem is None:
+            n = len(H['requests'])
+            if srv.pending:
+                raise HarnessError('v5 setup %s: unexpected further request %r' % (hs, [p.req['op'] for p in srv.pending]))
+            if st.get('unreadable'):
+                problem = ('unreadable-by-server', n, 'the node cannot read what the driver sent: %s' % st['unreadable'][0])
+            elif conn.is_defunct or conn.is_closed:
+                crc = isinstance(conn.last_error, CrcMismatchException)
+                problem = ('clean', n, '%s on the intact answer to request %d (%s): %s' % (
+                    'spurious checksum error' if crc else 'connection failed', n - 1, H['requests'][-1], state()))
+            elif not conn.connected_event.is_set():
+                problem = ('lost', n, 'the complete answer to the last request (%s) has arrived, the connection does not report itself connected; %s' % (
+                    H['requests'][-1], state()))
+        if problem and problem[1] < 2:
+            raise HarnessError('v5 setup %s failed before framing: %r' % (hs, problem))
+        srv.on_request = None
+        return w, srv, conn, problem
     except BaseException:
         w.__exit__()
         raise
 
 
-def receive(st, cuts, part, flip=None):
+def codec_label(lz4, hs):
+    return ('lz4' if lz4 else 'plain') + ('' if hs == 'ready' else '/after-' + hs)
+
+
+def report_handshake(part, problem, lz4, hs, split=None):
+    codec = 'lz4' if lz4 else 'plain'
+    case = {'kind': 'handshake', 'codec': codec, 'handshake': hs, 'split': {str(k): list(v) for k, v in (split or {}).items()}}
+    part.violation('C06/handshake/%s/%s/%s' % (problem[0], hs, codec),
+                   'connection setup %s with %s framing, step %d: %s; case %r' % (hs, codec, problem[1], problem[2], case), case)
+
+
+def connect(lz4, hs, part):
+    """-> (world, server, connection) after a whole-answer handshake, or None when that already broke the
+    property (reported under the handshake fingerprint)"""
+    w, srv, conn, problem = open_connection(lz4, hs)
+    if problem:
+        w.__exit__()
+        report_handshake(part, problem, lz4, hs)
+        part.count('evaluations')
+        part.count('executions')
+        part.outcome(('lz4' if lz4 else 'plain', 'handshake-failed', hs))
+        return None
+    return w, srv, conn
+
+
+def handshake_case(lz4, hs, split, part):
+    """one handshake execution under a splitting of the node's answers"""
+    w, srv, conn, problem = open_connection(lz4, hs, split)
+    try:
+        if problem:
+            report_handshake(part, problem, lz4, hs, split)
+        part.count('evaluations')
+        part.count('executions')
+        part.count('handshakes')
+        part.outcome(('lz4' if lz4 else 'plain', 'handshake', hs, problem[0] if problem else 'connected'))
+        return problem
+    finally:
+        w.__exit__()
+
+
+def receive(st, cuts, part, flip=None, hs='ready'):
     """feed st.data (optionally with one bit flipped) split at cuts; judge."""
     from cassandra.protocol import OptionsMessage
     from cassandra.connection import CrcMismatchException
-    w, srv, conn = connect(st.lz4)
+    if st.first != HANDSHAKES[hs]['first']:
+        raise HarnessError('stream built for first id %d used after handshake %s' % (st.first, hs))
+    opened = connect(st.lz4, hs, part)
+    if opened is None:
+        return ('handshake', '')
+    w, srv, conn = opened
     try:
         srv.hold = lambda c, r: True
         log = []
+        codec = codec_label(st.lz4, hs)
+        case = {'codec': 'lz4' if st.lz4 else 'plain', 'handshake': hs, 'stream': st.name, 'cuts': list(cuts), 'flip': flip}
         for sid, _, _ in st.frames:
             with conn.lock:
                 rid = conn.get_request_id()
             if rid != sid:
                 raise HarnessError('stream id drift: got %d, stream built for %d' % (rid, sid))
-            conn.send_msg(OptionsMessage(), rid, lambda r, rid=rid: log.append(
-                (rid,) + r.key() if isinstance(r, connlib.RawResponse) else (rid, 'exc', type(r).__name__)),
-                decoder=connlib.raw_decoder)
+            try:
+                conn.send_msg(OptionsMessage(), rid, lambda r, rid=rid: log.append(
+                    (rid,) + r.key() if isinstance(r, connlib.RawResponse) else (rid, 'exc', type(r).__name__)),
+                    decoder=connlib.raw_decoder)
+            except ValueError as e:       # raised by the independent reader inside push()
+                bad = ('unreadable', 'the node cannot read the OPTIONS request sent on stream %d: %s' % (rid, e))
+                part.violation('C06/encode/%s/%s' % (bad[0], codec), '%s; case %r' % (bad[1], case), case)
+                part.count('evaluations')
+                part.count('executions')
+                return bad
         from vt.world import wire
         expect = [(sid, 5, sid, fl, wire.OP_RESULT, body) for sid, fl, body in st.frames]
         data = st.data
@@ -229,8 +410,6 @@ def receive(st, cuts, part, flip=None):
             b = bytearray(data)
             b[flip >> 3] ^= 1 << (flip & 7)
             data = bytes(b)
-        codec = 'lz4' if st.lz4 else 'plain'
-        case = {'codec': codec, 'stream': st.name, 'cuts': list(cuts), 'flip': flip}
         fed = 0
         bad = None
         ends = []
@@ -285,18 +464,21 @@ def receive(st, cuts, part, flip=None):
             part.violation('C06/%s/%s/%s' % (bad[0], st.trigger(ends), codec), '%s; case %r' % (bad[1], case), case)
         part.count('evaluations')
         part.count('executions')
-        part.outcome((codec, 'flip' if flip is not None else 'clean', len([e for e in log if e[1] != 'exc']), bool(conn.is_defunct)))
+        part.outcome(('lz4' if st.lz4 else 'plain', 'flip' if flip is not None else 'clean', len([e for e in log if e[1] != 'exc']), bool(conn.is_defunct)))
         return bad
     finally:
         w.__exit__()
 
 
-def send_and_read_back(lz4, size, compressible, part):
+def send_and_read_back(lz4, size, compressible, part, hs='ready'):
     """driver encoder -> independent reader"""
     from cassandra.protocol import QueryMessage
-    w, srv, conn = connect(lz4)
-    codec = 'lz4' if lz4 else 'plain'
-    case = {'codec': codec, 'frame_size': size, 'compressible': compressible}
+    opened = connect(lz4, hs, part)
+    if opened is None:
+        return ('handshake', '')
+    w, srv, conn = opened
+    codec = codec_label(lz4, hs)
+    case = {'codec': 'lz4' if lz4 else 'plain', 'handshake': hs, 'frame_size': size, 'compressible': compressible}
     try:
         srv.hold = lambda c, r: True
         # QUERY frame = 9 header + 4 + len(query) + 2 consistency + 4 flags (v5)
@@ -333,7 +515,7 @@ def send_and_read_back(lz4, size, compressible, part):
                 bad = ('segment-count', '%d-byte frame sent in %d segments' % (size, len(segs)))
             if bad and bad[0] == 'harness':
                 raise HarnessError(bad[1])
-            part.outcome((codec, 'out', len(segs), tuple(bool(s[1]) for s in segs)))
+            part.outcome(('lz4' if lz4 else 'plain', 'out', len(segs), tuple(bool(s[1]) for s in segs)))
             if lz4 and any(s[1] for s in segs):
                 part.mark_nontrivial('out-compressed-%s' % size)
             if lz4 and any(not s[1] for s in segs):
@@ -365,6 +547,27 @@ def big_splittings(st, r1, r2):
     return sorted(seen, key=lambda c: (len(c), c))
 
 
+def handshake_splits(lz4, hs, kmax):
+    """every splitting with <= kmax cuts of one answer of the node (from the STARTUP answer on, the others in one
+    read each) + one byte per read for all those answers at once.  Answer lengths are measured on a whole-answer
+    run; when that run already fails only the whole-answer case is left (and reports the failure)."""
+    w, srv, conn, problem = open_connection(lz4, hs)
+    try:
+        lens = dict(conn.server_state['answer_lens'])
+    finally:
+        w.__exit__()
+    lens.pop(0, None)
+    out = [{}]
+    if problem:
+        return out, lens
+    for step in sorted(lens):
+        for cuts in connlib.k_cut_splits(lens[step], kmax):
+            if cuts:
+                out.append({step: cuts})
+    out.append({step: connlib.all_ones(L) for step, L in lens.items()})
+    return out, lens
+
+
 def run_item(item):
     connlib.quiet_driver_logs()
     part = Part()
@@ -372,15 +575,25 @@ def run_item(item):
     if connlib.too_many_livelocks():
         part.cap('work item %r skipped: several reads never returned in this worker (reported as C06/livelock)' % (item[:3],))
         return part
-    if kind == 'small':
-        _, name, lz4, anywhere, nearb, k, n = item
-        st = get_stream('small', name, lz4)
+    if kind == 'handshake':
+        _, hs, lz4, kmax, k, n = item
+        splits, lens = handshake_splits(lz4, hs, kmax)
+        for split in splits[k::n]:
+            if connlib.too_many_livelocks():
+                part.cap('stopped early: several reads never returned (reported as C06/livelock)')
+                break
+            handshake_case(lz4, hs, split, part)
+            for step, cuts in split.items():
+                part.mark_nontrivial('handshake/%s/%s/answer-%d/%d-cuts' % (hs, lz4, step, min(len(cuts), 3)))
+    elif kind == 'small':
+        _, name, lz4, anywhere, nearb, hs, k, n = item
+        st = get_stream('small', name, lz4, hs=hs)
         for cuts in small_splittings(st, anywhere, nearb)[k::n]:
             if connlib.too_many_livelocks():
                 part.cap('stopped early: several reads never returned (reported as C06/livelock)')
                 break
-            receive(st, cuts, part)
-            part.mark_nontrivial('%s/%s/%d-cuts' % (st.name, lz4, min(len(cuts), 5)))
+            receive(st, cuts, part, hs=hs)
+            part.mark_nontrivial('%s/%s/%d-cuts' % (st.name, codec_label(lz4, hs), min(len(cuts), 5)))
     elif kind == 'full':
         _, name, lz4, k, n = item
         st = get_stream('small', name, lz4)
@@ -392,14 +605,14 @@ def run_item(item):
             receive(st, connlib.cuts_of_mask(m, L), part)
         part.mark_nontrivial('%s/%s/all-compositions' % (st.name, lz4))
     elif kind == 'big':
-        _, name, lz4, form, r1, r2, k, n = item
-        st = get_stream('big', name, lz4, form)
+        _, name, lz4, form, r1, r2, hs, k, n = item
+        st = get_stream('big', name, lz4, form, hs=hs)
         for cuts in big_splittings(st, r1, r2)[k::n]:
             if connlib.too_many_livelocks():
                 part.cap('stopped early: several reads never returned (reported as C06/livelock)')
                 break
-            receive(st, cuts, part)
-            part.mark_nontrivial('%s/%s/%d-cuts' % (st.name, lz4, len(cuts)))
+            receive(st, cuts, part, hs=hs)
+            part.mark_nontrivial('%s/%s/%d-cuts' % (st.name, codec_label(lz4, hs), len(cuts)))
     elif kind == 'flip':
         _, name, lz4, kcuts, k, n = item
         st = get_stream('small', name, lz4)
@@ -413,8 +626,8 @@ def run_item(item):
                 receive(st, cuts, part, flip=bit)
             part.mark_nontrivial('flip/%s/%s/%d' % (st.name, lz4, bit))
     elif kind == 'out':
-        _, lz4, size, compressible = item
-        send_and_read_back(lz4, size, compressible, part)
+        _, lz4, size, compressible, hs = item
+        send_and_read_back(lz4, size, compressible, part, hs=hs)
     if kind == 'out' or item[-2] == 0:
         part.sample({'item': list(item)}, limit=1)
     return part
@@ -455,30 +668,45 @@ def run(ctx):
     selftest()
     items = []
     per = 2500
-    for lz4 in (False, True):
-        names = list(SMALL) + (list(SMALL_LZ4_ONLY) if lz4 else [])
-        for name in names:
-            st = get_stream('small', name, lz4)
-            anywhere, nearb = (2, 3) if ctx.quick else (3, 4)
-            tot = len(small_splittings(st, anywhere, nearb))
+    auth_hs = [h for h in HANDSHAKES if h != 'ready']
+    # connection setups, judged on their own
+    hs_kmax = 2 if ctx.quick else 3
+    for hs in HANDSHAKES:
+        for lz4 in (False, True):
+            splits, _ = handshake_splits(lz4, hs, hs_kmax)
+            tot = len(splits)
             n = max(1, tot // per)
-            items += [(tot // n, ('small', name, lz4, anywhere, nearb, k, n)) for k in range(n)]
-        if ctx.thorough:
-            st = get_stream('small', 'one-empty-frame', lz4)
-            tot = 1 << (len(st.data) - 1)
-            n = max(1, tot // per)
-            items += [(tot // n, ('full', 'one-empty-frame', lz4, k, n)) for k in range(n)]
-    bigs = ['MAX-1', 'MAX', 'MAX+1', '2MAX', '2MAX+5', 'small+MAX', 'MAX+small', 'small+MAX+1', '2MAX+5+small']
+            items += [(tot // n, ('handshake', hs, lz4, hs_kmax, k, n)) for k in range(n)]
+    # segment streams after each setup
+    anywhere, nearb = (2, 3) if ctx.quick else (3, 4)
+    auth_anywhere, auth_nearb = (1, 2) if ctx.quick else (2, 3)
+    for hs in HANDSHAKES:
+        for lz4 in (False, True):
+            names = list(SMALL) + (list(SMALL_LZ4_ONLY) if lz4 else [])
+            for name in names:
+                st = get_stream('small', name, lz4, hs=hs)
+                a, b = (anywhere, nearb) if hs == 'ready' else (auth_anywhere, auth_nearb)
+                tot = len(small_splittings(st, a, b))
+                n = max(1, tot // per)
+                items += [(tot // n, ('small', name, lz4, a, b, hs, k, n)) for k in range(n)]
+            if ctx.thorough and hs == 'ready':
+                st = get_stream('small', 'one-empty-frame', lz4)
+                tot = 1 << (len(st.data) - 1)
+                n = max(1, tot // per)
+                items += [(tot // n, ('full', 'one-empty-frame', lz4, k, n)) for k in range(n)]
+    bigs = ['MAX-1', 'MAX', 'MAX+1', '2MAX', '2MAX+5', 'small+MAX', 'MAX+small', 'small+MAX+1', '2MAX+5+small', 'pair+MAX+1']
     r1, r2 = (8, 1) if ctx.quick else (8, 8)
-    bigs_lz4 = bigs if ctx.thorough else ['MAX', 'MAX+1', '2MAX+5', 'small+MAX+1']
-    for lz4, form in ((False, 'P'), (True, 'U'), (True, 'C')):
-        for name in (bigs if not lz4 else bigs_lz4):
-            # rough count for load balancing only
-            nseg = {'MAX-1': 1, 'MAX': 1, 'MAX+1': 2, '2MAX': 2, '2MAX+5': 3}[name.replace('small+', '').replace('+small', '')] + ('small' in name)
-            npos = nseg * 5 * (2 * r2 + 1)
-            tot = npos * npos // 2 * 6        # weight: big executions cost several small ones
-            n = max(1, tot // per)
-            items += [(tot // n, ('big', name, lz4, form, r1, r2, k, n)) for k in range(n)]
+    bigs_lz4 = bigs if ctx.thorough else ['MAX', 'MAX+1', '2MAX+5', 'small+MAX+1', 'pair+MAX+1']
+    bigs_auth = ['small+MAX+1'] if ctx.thorough else []
+    for hs in HANDSHAKES:
+        for lz4, form in ((False, 'P'), (True, 'U'), (True, 'C')):
+            for name in ((bigs if not lz4 else bigs_lz4) if hs == 'ready' else bigs_auth):
+                # rough count for load balancing only
+                nseg = {'MAX-1': 1, 'MAX': 1, 'MAX+1': 2, '2MAX': 2, '2MAX+5': 3}[big_core(name)] + ('small' in name) + ('pair' in name)
+                npos = nseg * 5 * (2 * r2 + 1)
+                tot = npos * npos // 2 * 6        # weight: big executions cost several small ones
+                n = max(1, tot // per)
+                items += [(tot // n, ('big', name, lz4, form, r1, r2, hs, k, n)) for k in range(n)]
     for lz4, name in FLIP_STREAMS:
         st = get_stream('small', name, lz4)
         kcuts = 1 if ctx.quick else 2
@@ -486,41 +714,56 @@ def run(ctx):
         n = max(1, min(len(st.data) * 8, tot // per))
         items += [(tot // n, ('flip', name, lz4, kcuts, k, n)) for k in range(n)]
     sizes = [40, 1000, MAX - 1, MAX, MAX + 1, 2 * MAX, 2 * MAX + 5] + ([3 * MAX + 1] if ctx.thorough else [])
-    for lz4 in (False, True):
-        for size in sizes:
-            for compressible in ((False, True) if lz4 else (False,)):
-                items.append((400, ('out', lz4, size, compressible)))
+    sizes_auth = [40, MAX + 1]
+    for hs in HANDSHAKES:
+        for lz4 in (False, True):
+            for size in (sizes if hs == 'ready' else sizes_auth):
+                for compressible in ((False, True) if lz4 else (False,)):
+                    items.append((400, ('out', lz4, size, compressible, hs)))
     items = [it for _, it in sorted(ctx.rotate(items), key=lambda x: -x[0])]
     for part in ctx.pmap(run_item, items):
         ctx.merge(part)
-    ctx.cov['rule'] = ('codecs {plain, lz4}; small streams %s (+ lz4 only: %s): all splittings with <=%d cuts anywhere U <=%d cuts within 1 '
-                       'byte of a segment start / header end / header-CRC end / payload end / segment end U one byte per read%s; big '
-                       'streams %s in plain form and %s in lz4-left-uncompressed / lz4-compressed form: all 1-cut splittings within %d bytes and '
-                       'all 2-cut splittings within %d byte(s) of those boundaries; outgoing frame sizes %s; bit flips: every bit of '
-                       '%d two-segment streams %s x every splitting with <= %d cuts; non-trivial = distinct (stream, codec, number of cuts) '
-                       'classes, flipped bits, outgoing segment forms'
-                       % (list(SMALL), list(SMALL_LZ4_ONLY), anywhere, nearb, '' if ctx.quick else ' U every composition of the one-empty-frame streams', bigs, bigs_lz4, r1, r2, sizes, len(FLIP_STREAMS), [n for _, n in FLIP_STREAMS], kcuts))
+    ctx.cov['rule'] = ('codecs {plain, lz4}; connection setups %s: every splitting with <= %d cuts of one answer of the node from the '
+                       'STARTUP answer on U one byte per read; small streams %s (+ lz4 only: %s): after setup ready all splittings with '
+                       '<=%d cuts anywhere U <=%d cuts within 1 byte of a segment start / header end / header-CRC end / payload end / '
+                       'segment end U one byte per read%s, after setups %s the same with <=%d / <=%d cuts; big '
+                       'streams %s in plain form and %s in lz4-left-uncompressed / lz4-compressed form (after setup ready%s): all 1-cut '
+                       'splittings within %d bytes and '
+                       'all 2-cut splittings within %d byte(s) of those boundaries; outgoing frame sizes %s (after setups %s: %s); bit flips: every bit of '
+                       '%d multi-segment streams %s x every splitting with <= %d cuts; non-trivial = distinct (stream, codec and setup, number of cuts) '
+                       'classes, (setup, codec, answer, number of cuts) classes, flipped bits, outgoing segment forms'
+                       % (list(HANDSHAKES), hs_kmax, list(SMALL), list(SMALL_LZ4_ONLY), anywhere, nearb,
+                          '' if ctx.quick else ' U every composition of the one-empty-frame streams', auth_hs, auth_anywhere, auth_nearb,
+                          bigs, bigs_lz4, '; %s also after %s' % (bigs_auth, auth_hs) if bigs_auth else '', r1, r2, sizes, auth_hs, sizes_auth,
+                          len(FLIP_STREAMS), [n for _, n in FLIP_STREAMS], kcuts))
     ctx.cov['exhaustive'] = True
-    ctx.assume('stream ids after the handshake are handed out in the order 2, 3, ... (checked at every execution)')
+    ctx.assume('stream ids after the handshake are handed out in the order first, first+1, ... (first = number of handshake requests; '
+               'checked at every execution)')
     ctx.assume('a node leaves a segment payload uncompressed exactly when compressing does not make it smaller')
     ctx.assume('small non-self-contained segments (legal, not produced by Cassandra for small frames) exercise the multi-segment '
                'path under dense split enumeration; real multi-segment frames (> 131071 bytes) are covered by the big streams')
+    ctx.assume('a node switches to segment framing (in the form that matches the COMPRESSION option of STARTUP) right after its '
+               'unframed READY / AUTHENTICATE answer (native_protocol_v5.spec section 2), so AUTH_RESPONSE / AUTH_CHALLENGE / '
+               'AUTH_SUCCESS travel in segments')
 
 
 def replay(ctx, data):
     connlib.quiet_driver_logs()
     part = Part()
-    if data.get('kind') == 'out':
-        bad = send_and_read_back(data['codec'] == 'lz4', data['frame_size'], data['compressible'], part)
+    hs = data.get('handshake', 'ready')
+    if data.get('kind') == 'handshake':
+        bad = handshake_case(data['codec'] == 'lz4', hs, {int(k): tuple(v) for k, v in data.get('split', {}).items()}, part)
+    elif data.get('kind') == 'out':
+        bad = send_and_read_back(data['codec'] == 'lz4', data['frame_size'], data['compressible'], part, hs=hs)
     else:
         lz4 = data['codec'] == 'lz4'
         name = data['stream']
         if '/' in name:
             nm, form = name.rsplit('/', 1)
-            st = get_stream('big', nm, lz4, form)
+            st = get_stream('big', nm, lz4, form, hs=hs)
         else:
-            st = get_stream('small', name, lz4)
-        bad = receive(st, tuple(data['cuts']), part, flip=data.get('flip'))
+            st = get_stream('small', name, lz4, hs=hs)
+        bad = receive(st, tuple(data['cuts']), part, flip=data.get('flip'), hs=hs)
     for fp, what, _ in part.violations:
         print(fp, '::', what[:400])
     return bad is not None
